@@ -37,7 +37,7 @@ def _worker(conn: Any, fn: Callable[[Any], Any], init: Callable[[], None] | None
     try:
         if os.environ.get("VERIF_DEBUG_HANG"):
             import faulthandler
-            faulthandler.dump_traceback_later(float(os.environ["VERIF_DEBUG_HANG"]), exit=False)
+            faulthandler.dump_traceback_later(float(os.environ["VERIF_DEBUG_HANG"]), repeat=True, exit=False)
         if init is not None:
             init()
         while True:
